@@ -460,6 +460,7 @@ pub fn build_seeds(tier: Tier) -> (Vec<Seed>, SeedStats) {
     // (i-b) synthesised families for recursion guards (independent of the corpus)
     crate::synth::synth_seeds(&mut out);
     crate::sparsebits::sparsebits_seeds(&mut out);
+    crate::capsweep::capsweep_seeds(&mut out);
     // (ii) font-test-data static blobs: fit matrix — a blob seeds every type (and argument value)
     // that reads it successfully, exposes >= 2 fields, resolves everything without a single error and
     // visits at least one node per 4 bytes of the blob (i.e. the type's shape really covers the blob;
